@@ -62,7 +62,7 @@ def main(argv):
         witness = req.get("witness") or None
         limit = req["points"]
         base = random.Random("%s|%s" % (oid, req["seed"])).randrange(1 << 30)
-        while done < limit and tries < limit * 20:
+        while done < limit and tries < limit * 3 + 20:
             tries += 1
             if req["mode"] == "replay":
                 res = run_one(ob, r, witness, base)
